@@ -31,7 +31,7 @@ theorem tagKids_sub {t k : Node} (h : k ∈ tagKids t) : ∀ ns ∈ treeNamespac
     exact Or.inr (mem_kidsNamespaces_of h.1 hns)
   | _ => simp [tagKids] at h
 
-theorem bfsLevels_sound (S : List String) : ∀ (fuel : Nat) (level : List Node),
+theorem scan_bfsLevels_sound (S : List String) : ∀ (fuel : Nat) (level : List Node),
     (∀ t ∈ level, ∀ ns ∈ treeNamespaces t, ns ∈ S) →
     ∀ n ∈ bfsLevels fuel level, ∀ ns ∈ treeNamespaces n, ns ∈ S := by
   intro fuel
@@ -50,7 +50,7 @@ theorem bfsLevels_sound (S : List String) : ∀ (fuel : Nat) (level : List Node)
         obtain ⟨p, hp, hp'⟩ := List.mem_flatMap.mp ht
         exact fun ns hns => hl p hp ns (tagKids_sub hp' ns hns)
 
-theorem nodeNamespaces_sub (n : Node) : ∀ ns ∈ nodeNamespaces n, ns ∈ treeNamespaces n := by
+theorem scan_nodeNamespaces_sub (n : Node) : ∀ ns ∈ nodeNamespaces n, ns ∈ treeNamespaces n := by
   intro ns h
   cases n with
   | tag tns name attrs kids =>
@@ -61,7 +61,7 @@ theorem nodeNamespaces_sub (n : Node) : ∀ ns ∈ nodeNamespaces n, ns ∈ tree
     · exact Or.inl (Or.inr h)
   | _ => simp [nodeNamespaces] at h
 
-theorem zip_cover_left {α β : Type} : ∀ (as : List α) (bs : List β), as.length = bs.length →
+theorem scan_zip_cover_left {α β : Type} : ∀ (as : List α) (bs : List β), as.length = bs.length →
     ∀ a ∈ as, ∃ b, (a, b) ∈ List.zip as bs := by
   intro as
   induction as with
@@ -78,18 +78,18 @@ theorem zip_cover_left {α β : Type} : ∀ (as : List α) (bs : List β), as.le
         exact ⟨b, by simp [hb]⟩
 
 /-- valid orders mention namespaces of the tree only -/
-theorem orders_sound {root : Node} {orders : List (List String)}
+theorem scan_orders_sound {root : Node} {orders : List (List String)}
     (ho : ordersValid root orders = true) :
     ∀ ns ∈ orders.flatten, ns ∈ treeNamespaces root := by
   intro ns hns
   obtain ⟨o, ho', hno⟩ := List.mem_flatten.mp hns
   simp only [ordersValid, Bool.and_eq_true, beq_iff_eq, List.all_eq_true] at ho
-  obtain ⟨t, hz⟩ := zip_cover_left orders (bfsTags root) ho.1 o ho'
+  obtain ⟨t, hz⟩ := scan_zip_cover_left orders (bfsTags root) ho.1 o ho'
   have hp := ho.2 (o, t) hz
   simp only [isPermOf, Bool.and_eq_true, List.all_eq_true] at hp
   have hnt : ns ∈ nodeNamespaces t := by simpa using hp.1.2 ns hno
   have ht : t ∈ bfsTags root := (List.of_mem_zip hz).2
-  exact bfsLevels_sound (treeNamespaces root) _ [root] (by simp) t ht ns (nodeNamespaces_sub t ns hnt)
+  exact scan_bfsLevels_sound (treeNamespaces root) _ [root] (by simp) t ht ns (scan_nodeNamespaces_sub t ns hnt)
 
 /-! ## namespaces of a `NamesOk` tree can be written -/
 
@@ -274,6 +274,6 @@ theorem collect_mapNamesOk {nsmap : Dict} (hnn : NsMapNamesOk nsmap) (root : Nod
       rw [he]
       exact ⟨rootNs_ok root hroot, empty_nameChars⟩
   · intro ns hns
-    exact namesOk_ns root hroot ns (orders_sound ho ns hns)
+    exact namesOk_ns root hroot ns (scan_orders_sound ho ns hns)
 
 end Delb.Ser
